@@ -28,10 +28,15 @@ SCAL = [[[1, 0], [1, 0]], [[0.5, 0], [-0.5, 0]], [[0, 0.5], [2, 1]], [[-1.5, 0],
 WM = ["none", "str", "perm"]
 
 
-def bword(word):
+def bword(word, ins=None):
+    """The word as a BoseWord; `ins` = order in which the (position, mode) keys are INSERTED into the dict (the word order is given by the
+    positions alone, so every insertion order denotes the same operator)."""
     from pennylane.bose import BoseWord
 
-    return BoseWord({(i, m): s for i, (m, s) in enumerate(word)})
+    items = [((i, m), s) for i, (m, s) in enumerate(word)]
+    if ins is not None:
+        items = [items[k] for k in ins]
+    return BoseWord(dict(items))
 
 
 def wire_map(kind, nq):
@@ -110,7 +115,36 @@ def check(spec):
         return check_pair(spec)
     if k == "reject":
         return check_reject(spec)
+    if k == "shift":
+        return check_shift(spec)
     raise AssertionError(k)
+
+
+def check_shift(spec):
+    """History: word -> BoseWord.shift_operator(i, j) (re-orders the underlying dict) -> mapping. Every word of the returned sentence is
+    read off by POSITION and the image of the sentence must act as the coefficient-weighted sum of those words' ladder products."""
+    import numpy as np
+
+    m, nm, d, word, i, j = spec["m"], spec["nm"], spec["d"], spec["w"], spec["i"], spec["j"]
+    idx, nq = R.encoded(m, nm, d)
+    try:
+        S = bword(word).shift_operator(i, j)
+    except ValueError as e:
+        return skip(f"shift-rejected:{str(e)[:40]}")
+    F = np.zeros((d ** nm, d ** nm), dtype=complex)
+    for w, cf in S.items():
+        F = F + cf * R.word_matrix([(mode, w[(pos, mode)]) for pos, mode in sorted(w.keys())], nm, d)
+    M = image(m, S, nq, d)
+    sub, leak = compress(M, idx)
+    if differs(sub, F):
+        return bad(f"code-space-action:{m}:d={d}:after-shift_operator", float(np.abs(sub - F).max()), "sum_w c_w F(w), words read by position",
+                   word=str(bword(word)), shift=[i, j], sentence=str(S))
+    if leak > TOL:
+        return bad(f"leaves-code-space:{m}:d={d}:after-shift_operator", leak, 0.0, word=str(bword(word)), shift=[i, j])
+    Ma = image(m, S.adjoint(), nq, d)
+    if sdiffers(Ma, M.conj().T, max(amax(M), 1.0)):
+        return bad(f"adjoint:{m}:d={d}:after-shift_operator", amax(Ma - M.conj().T), "M(S^+) = M(S)^+", word=str(bword(word)), shift=[i, j])
+    return ok(outcome=[m, nm, d, len(word), i, j, round(float(np.abs(F).sum()), 6)], nontrivial=nontriv(F))
 
 
 def check_word(spec):
@@ -119,11 +153,11 @@ def check_word(spec):
     m, nm, d, word, ps, wm, tol = spec["m"], spec["nm"], spec["d"], spec["w"], spec["ps"], spec["wm"], spec["tol"]
     opt = f"ps={ps}:wm={wm}:tol={'None' if tol is None else 'set'}"
     idx, nq = R.encoded(m, nm, d)
-    bw = bword(word)
+    bw = bword(word, spec.get("ins"))
     F = R.word_matrix(word, nm, d)
     M = image(m, bw, nq, d, ps, wm, tol)
     sub, leak = compress(M, idx)
-    tag = f"{m}:d={d}:len={len(word)}:{opt}"
+    tag = f"{m}:d={d}:len={len(word)}:{opt}" + (":insertion-order-permuted" if spec.get("ins") is not None else "")
     if differs(sub, F):
         x = np.unravel_index(int(np.argmax(np.abs(sub - F))), F.shape)
         return bad(f"code-space-action:{tag}", {"maxdiff": float(np.abs(sub - F).max()), "entry": [int(x[0]), int(x[1])], "got": complex(sub[x]), "want": float(F[x])},
@@ -226,6 +260,22 @@ def run(ctx):
                                 continue
                             grid.append({"k": "word", "m": m, "nm": 2, "d": d, "w": w, "ps": ps, "wm": wm, "tol": tol})
     ctx.enumerate(grid, axis="options")
+    # the same word from every insertion order of its dict (word order = positions), and after shift_operator (which re-inserts keys)
+    import itertools
+
+    routes = []
+    for m, ds in (("binary", (2, 3)), ("unary", (2, 3)), ("christiansen", (2,))):
+        for d in ds:
+            for nm in (1, 2):
+                for w in R.all_words(nm, 3, 2):
+                    for ins in itertools.permutations(range(len(w))):
+                        if list(ins) != sorted(ins):
+                            routes.append({"k": "word", "m": m, "nm": nm, "d": d, "w": w, "ps": True, "wm": "none", "tol": None, "ins": list(ins)})
+                    for i in range(len(w)):
+                        for j in range(len(w)):
+                            if i != j:
+                                routes.append({"k": "shift", "m": m, "nm": nm, "d": d, "w": w, "i": i, "j": j})
+    ctx.enumerate(routes, axis="construction-route")
     pairs = []
     for m, ds in (("binary", (2, 3) if ctx.quick else (2, 3, 4, 5)), ("unary", (2, 3) if ctx.quick else (2, 3, 4)), ("christiansen", (2,))):
         for d in ds:
